@@ -20,6 +20,7 @@ func checkC08(p *Prog, r *Report) {
 	r.rule("C08.all-items: in each loop of URL.String that emits list items, no path round the loop leaves the accumulator unchanged (nothing selected is skipped)")
 	r.rule("C08.emission-guards: no parameter is emitted conditionally on the dynamic type of a value (no type-assertion outcome among the branch conditions that dominate an emission); page values are printed with fmt.Sprint of the stored value")
 	r.rule("C08.fields-accepted: String() prints a fields[T] parameter for every key of Params.Fields, whichever way the key got there, and does not print include; so NewParams may reject a fields[T] entry only for reasons computed from T, its name list, the schema and what this very iteration stored - never from state left by other parameters (every condition that dominates a rejecting return inside the loop over the parsed field selections is checked for its inputs)")
+	r.rule("C08.fields-fresh (shared with C07): a list stored into Params.Fields inside a loop is allocated inside that loop; C08.sort-completion: where NewParams appends the attributes not yet mentioned to the kept sorting rules (append(K, R...)), every list of strings scanned in the loop that builds R is K itself: the completion is relative to the list being completed, so the completed list is a fixed point of print-and-parse")
 	r.rule("C08.path-decoding: NewSimpleURL cuts the fragments out of the decoded path (url.URL.Path), the counterpart of String()'s PathEscape; C08.fields-default (shared with C07): no write to the field selections escapes the loop that replaces empty selections by all fields")
 	r.rule("C08.separator-trim: a trailing-separator trim x[:len(x)-k] after a loop is sound for zero iterations - the loop's source is known non-empty there, or the initial text has exactly k characters")
 	r.rule("R7 canonical order (shared with C11): the map of field selections is collected, sorted and emitted in sorted order, each name list is sorted before emission; R7 reader: in NewSimpleURL's loop over the query map every write goes to an entry keyed by the current name, happens under an exact name test (at most one iteration), or is a lazy initialisation, and the loop is left early only with an error")
@@ -51,6 +52,8 @@ func checkC08(p *Prog, r *Report) {
 	r.floor("sorts in URL.String", nSorts, 2)
 	checkC08FieldsAccepted(p, r)
 	checkFieldsDefault(p, r, "C08")
+	checkFieldsFresh(p, r, "C08")
+	checkSortCompletion(p, r)
 	// the reader takes the path fragments from the decoded path: String() applies PathEscape to them
 	{
 		okPath, n := false, 0
@@ -1380,4 +1383,167 @@ func indexFilled(ld *loopDesc) *ssa.MakeSlice {
 		}
 	}
 	return nil
+}
+
+// checkSortCompletion: NewParams completes the caller's sorting rules with the
+// attributes that are not yet mentioned. The membership test that decides
+// "not yet mentioned" must scan the list that is being completed (the kept
+// rules) - with any other list (the raw rules, say) the completed list is not
+// a fixed point of print-and-parse.
+func checkSortCompletion(p *Prog, r *Report) {
+	f := p.Fn("NewParams")
+	if f == nil {
+		r.fail("anchor NewParams not found")
+		return
+	}
+	n := 0
+	eachInstr(f, func(ins ssa.Instruction) {
+		st, ok := ins.(*ssa.Store)
+		if !ok {
+			return
+		}
+		fa, ok := st.Addr.(*ssa.FieldAddr)
+		if !ok {
+			return
+		}
+		if o, fl := fieldRef(fa.X, fa.Field); o != "Params" || fl != "SortingRules" {
+			return
+		}
+		// find append(K, R...) on the way back from the stored value
+		var spread *ssa.Call
+		seen := map[ssa.Value]bool{}
+		var back func(v ssa.Value, depth int)
+		back = func(v ssa.Value, depth int) {
+			if depth > 20 || seen[v] || spread != nil {
+				return
+			}
+			seen[v] = true
+			switch x := v.(type) {
+			case *ssa.Phi:
+				for _, e := range x.Edges {
+					back(e, depth+1)
+				}
+			case *ssa.Call:
+				if builtinName(x.Common()) != "append" || len(x.Common().Args) != 2 {
+					return
+				}
+				if sl, ok := x.Common().Args[1].(*ssa.Slice); ok {
+					if _, isArr := sl.X.(*ssa.Alloc); isArr {
+						back(x.Common().Args[0], depth+1) // append(xs, "id"): explicit elements
+						return
+					}
+				}
+				spread = x
+			}
+		}
+		back(st.Val, 0)
+		if spread == nil {
+			return
+		}
+		n++
+		K, R := spread.Common().Args[0], spread.Common().Args[1]
+		// the loop that builds R
+		var rphi *ssa.Phi
+		var find func(v ssa.Value, depth int)
+		find = func(v ssa.Value, depth int) {
+			if depth > 10 || rphi != nil {
+				return
+			}
+			switch x := v.(type) {
+			case *ssa.Phi:
+				if naturalLoop(x.Block()) != nil {
+					rphi = x
+					return
+				}
+				for _, e := range x.Edges {
+					find(e, depth+1)
+				}
+			case *ssa.Call:
+				if builtinName(x.Common()) == "append" {
+					find(x.Common().Args[0], depth+1)
+				}
+			}
+		}
+		find(R, 0)
+		key := "NewParams:" + p.describe(spread)
+		if rphi == nil {
+			r.ok("C08.sort-completion", key, p.pos(spread.Pos()), "the completing list is not built by a loop here (not covered)")
+			return
+		}
+		loop := naturalLoop(rphi.Block())
+		// lists of strings scanned inside that loop: indexed in an inner loop,
+		// or handed to a function of the package
+		scanned := map[ssa.Value]string{}
+		for b := range loop {
+			for _, i2 := range b.Instrs {
+				switch x := i2.(type) {
+				case *ssa.IndexAddr:
+					if isStringSlice(x.X.Type()) {
+						scanned[x.X] = p.describe(x)
+					}
+				case *ssa.Call:
+					g := x.Common().StaticCallee()
+					if g == nil || !p.inTarget(g) {
+						continue
+					}
+					for _, a := range x.Common().Args {
+						if isStringSlice(a.Type()) {
+							scanned[a] = p.describe(x)
+						}
+					}
+				}
+			}
+		}
+		if len(scanned) == 0 {
+			r.ok("C08.sort-completion", key, p.pos(spread.Pos()), "no list is scanned while the rules are completed (membership decided otherwise: not covered)")
+			return
+		}
+		bad := ""
+		for l, where := range scanned {
+			if l == K || sameAccumulation(l, K) {
+				continue
+			}
+			// the list being built itself
+			if l == ssa.Value(rphi) || sameAccumulation(l, rphi) {
+				continue
+			}
+			bad = where
+		}
+		r.decide(bad == "", "C08.sort-completion", key, p.pos(spread.Pos()), "the attributes added are those not mentioned in the very list they are added to",
+			"the sorting rules are completed with the attributes missing from another list than the one being completed ("+bad+"): a rule the caller gave after id is dropped but still hides its attribute, so String() of the parsed URL does not parse back to the same rules")
+	})
+	r.floor("completions of the sorting rules", n, 1)
+}
+
+func isStringSlice(t types.Type) bool {
+	sl, ok := t.Underlying().(*types.Slice)
+	if !ok {
+		return false
+	}
+	bt, ok := sl.Elem().Underlying().(*types.Basic)
+	return ok && bt.Info()&types.IsString != 0
+}
+
+// sameAccumulation: a and b are the same list variable at different points of
+// its accumulation with no way for one to hold elements the other lacks at
+// the point of use - here simply: one is a phi that merges the other with
+// itself unchanged, or they are identical.
+func sameAccumulation(a, b ssa.Value) bool {
+	if a == b {
+		return true
+	}
+	for _, pr := range [][2]ssa.Value{{a, b}, {b, a}} {
+		if phi, ok := pr[0].(*ssa.Phi); ok {
+			all := true
+			for _, e := range phi.Edges {
+				if e != pr[1] && e != ssa.Value(phi) {
+					all = false
+				}
+			}
+			if all {
+				return true
+			}
+		}
+	}
+	return false
 }
